@@ -13,8 +13,13 @@
    had been accepted"): the hand-over step drains exactly what the destination took and keeps the rest, so no byte of an accepted tag
    is ever dropped; a run against ANY destination is the run against the destination that accepts everything, except that some of
    the bytes are still in the working buffer, and that a call reports an I/O error where the other run reports success.  FULL: every
-   call sequence, specification and destination script. *)
-From Ebml Require Import Base Tools Spec Writer Reader Pure Encode Proofs.Tactics Proofs.SpecProofs Proofs.WriterProofs Proofs.RoundTrip Proofs.WriteEnc Proofs.Nesting Proofs.Partial Proofs.Snapshots Proofs.AuditWriter Proofs.WriteScripts Proofs.WriterIO.
+   call sequence, specification and destination script.
+   Fourth part (Proofs/SnapshotsMixed.v): the snapshot statements of the second part (a) when the complete trees are presented in ANY
+   mix of Full items and separate calls ([pops_open d L P f ps], the presentations of Proofs/WriteMixed.v, C09), (b) with any number
+   of REJECTED calls (calls returning an error other than an I/O error, the class of C19_insert_rejected) inserted at arbitrary
+   positions ([rej_insert]), and (c) after EVERY call: every prefix of a presentation of a conforming document is again such an open
+   call sequence for some L, f (C10_prefix_is_open, C10_snapshot_after_every_call).  Same scope as the second part otherwise. *)
+From Ebml Require Import Base Tools Spec Writer Reader Pure Encode Proofs.Tactics Proofs.SpecProofs Proofs.WriterProofs Proofs.RoundTrip Proofs.WriteEnc Proofs.Nesting Proofs.Partial Proofs.Snapshots Proofs.AuditWriter Proofs.WriteScripts Proofs.WriterIO Proofs.RollUp Proofs.WriteFull Proofs.WriteMixed Proofs.WriteEncG Proofs.SnapshotsMixed.
 
 (* bytes handed to the destination are never retracted or altered: every call only appends to them, for every call,
    state, specification and destination write script *)
@@ -356,3 +361,232 @@ Example C10_ex_snapshot_held :
   p_run C10_cfg (snd (run_writer C10_sp (wops_open true (C10_levels (Some 4%N)) C10_f) [])) [RAll] =
     [OItem (TStart 129) 0; OItem (TElem 16641 (VU 5)) 9; OItem (TEnd 129) 0; ONone].
 Proof. split; vm_compute; reflexivity. Qed.
+
+(* ---- snapshots with Full items and with rejected calls in between (Proofs/SnapshotsMixed.v) *)
+
+(* Vocabulary.  [pops_open d L P f ps]: the call sequence that leaves the masters of the levels L open, where the complete sibling
+   trees [lv_f] of the i-th level are presented by the i-th list of P and the complete innermost trees f by ps: a master presented by
+   PFull is ONE write call with a Full item, a master presented by PSep is Start, children (each by its own presentation), End
+   (missing presentations count as PFull; the open master of each level is a Start call as in [wops_open]).
+   [pconf_levels]/[pconf_forest]: writer-side conformance under these presentations ([pconf] of Proofs/WriteMixed.v: as [wconf], and
+   everything inside a Full item has default options and known sizes). *)
+
+(* the all-separate presentation is the call sequence of the second part, with the same conformance *)
+Theorem C10_snapshot_mixed_all_separate : forall sp d L f,
+  pops_open d L (all_sep_levels L) f (map all_sep f) = wops_open d L f /\
+  (pconf_levels sp d [] L (all_sep_levels L) <-> wconf_levels sp d [] L) /\
+  (pconf_forest sp d (lv_ids [] L) f (map all_sep f) <-> Forall (wconf sp d (lv_ids [] L)) f).
+Proof. intros sp d L f. split; [apply pops_open_all_sep|]. split; [apply pconf_levels_all_sep|apply pconf_forest_all_sep]. Qed.
+
+(* C10_snapshot_bytes_partial for ANY mix of Full items and separate calls: every open master of unknown size, the levels and the
+   innermost forest conform under the presentations P, ps: every call returns Ok and the destination holds exactly
+   enc_levels L ++ enc_forest f, the same bytes as for separate calls *)
+Theorem C10_snapshot_mixed_bytes : forall sp d L P f ps, Forall lv_unknown L -> pconf_levels sp d [] L P ->
+  pconf_forest sp d (lv_ids [] L) f ps ->
+  Forall (fun r => fst r = WOk) (fst (run_writer sp (pops_open d L P f ps) [])) /\
+  snd (run_writer sp (pops_open d L P f ps) []) = enc_levels L ++ enc_forest f.
+Proof. exact snapshot_mixed_bytes. Qed.
+
+(* C10_snapshot_held_partial for any mix: lvk is the outermost open master of known size (all of L1 have unknown size): every call
+   returns Ok and the destination holds exactly what precedes lvk's Start *)
+Theorem C10_snapshot_mixed_held : forall sp d L1 lvk L2 P f ps, Forall lv_unknown L1 -> lv_size lvk <> None ->
+  pconf_levels sp d [] (L1 ++ lvk :: L2) P -> pconf_forest sp d (lv_ids [] (L1 ++ lvk :: L2)) f ps ->
+  Forall (fun r => fst r = WOk) (fst (run_writer sp (pops_open d (L1 ++ lvk :: L2) P f ps) [])) /\
+  snd (run_writer sp (pops_open d (L1 ++ lvk :: L2) P f ps) []) = enc_levels L1 ++ enc_forest (lv_f lvk).
+Proof. exact snapshot_mixed_held. Qed.
+
+(* C10_snapshot_parses_partial for any mix: the strict reader parses the delivered bytes to the items of everything written so far
+   (the same [out_tdoc (snapshot_doc L f)]: Full items come back unrolled), then the Ends of the open masters, then None *)
+Theorem C10_snapshot_mixed_parses : forall c d L P f ps, strict c -> c_buffered c = [] -> c_emit_eof c = true ->
+  Forall lv_unknown L -> pconf_levels (c_sp c) d [] L P -> pconf_forest (c_sp c) d (lv_ids [] L) f ps ->
+  rconf_levels c L -> Forall (rconf c) f ->
+  p_run c (snd (run_writer (c_sp c) (pops_open d L P f ps) [])) [RAll] = out_tdoc (snapshot_doc L f).
+Proof. exact snapshot_mixed_parses. Qed.
+
+Theorem C10_snapshot_mixed_held_parses : forall c d L1 lvk L2 P f ps, strict c -> c_buffered c = [] -> c_emit_eof c = true ->
+  Forall lv_unknown L1 -> lv_size lvk <> None ->
+  pconf_levels (c_sp c) d [] (L1 ++ lvk :: L2) P -> pconf_forest (c_sp c) d (lv_ids [] (L1 ++ lvk :: L2)) f ps ->
+  rconf_levels c L1 -> Forall (rconf c) (lv_f lvk) ->
+  p_run c (snd (run_writer (c_sp c) (pops_open d (L1 ++ lvk :: L2) P f ps) [])) [RAll] = out_tdoc (snapshot_doc L1 (lv_f lvk)).
+Proof. exact snapshot_mixed_held_parses. Qed.
+
+(* C10_snapshot_out_tags_partial for any mix: the tags read back are the tags of the levels, of the innermost forest, and the Ends
+   of the open masters (innermost first) ... *)
+Theorem C10_snapshot_mixed_out_tags : forall c d L P f ps, strict c -> c_buffered c = [] -> c_emit_eof c = true ->
+  Forall lv_unknown L -> pconf_levels (c_sp c) d [] L P -> pconf_forest (c_sp c) d (lv_ids [] L) f ps ->
+  rconf_levels c L -> Forall (rconf c) f ->
+  out_tags (p_run c (snd (run_writer (c_sp c) (pops_open d L P f ps) [])) [RAll]) = tags_levels L ++ tags_forest f ++ open_ends L.
+Proof. exact snapshot_mixed_out_tags. Qed.
+
+(* ... and tags_levels L ++ tags_forest f are exactly the tags of the calls made ([wtags], every call is a write call), with each Full
+   item unrolled into Start, children, End ([flat]) *)
+Theorem C10_snapshot_mixed_calls : forall d L P f ps, flat (wtags (pops_open d L P f ps)) = tags_levels L ++ tags_forest f.
+Proof. exact pops_open_tags. Qed.
+
+(* Vocabulary.  [rejected sp st op]: the call op, made in state st, returns an error that is not an I/O error (for write_raw the payload
+   is shorter than 2^56-1 bytes) — the class of C19_atomic_any / C19_insert_rejected.  [rej_insert sp st ops ops']: ops' is ops with
+   further calls inserted at arbitrary positions (any number, also in a row, also at the end), each of them rejected in the state the
+   run from st has reached at its position.  [accepted_calls ops rs]: the calls of ops whose result in rs is Ok, in order.
+   [row_ok r]: the result r is Ok.  [ok_or_rejected r]: r is Ok or an error that is not an I/O error. *)
+
+(* run level, any state: if every call of ops returns Ok from st, then the run of ops' ends in the same state (open masters, working
+   buffer, delivered bytes), its Ok results (with their delivered-byte counts) are exactly the results of ops, the calls that
+   returned Ok are exactly ops, every other result is a rejection, and no call panicked (every call of ops' has a result) *)
+Theorem C10_rejected_run : forall sp st ops ops', rej_insert sp st ops ops' ->
+  Forall (fun r => fst r = WOk) (snd (wrun sp st ops)) ->
+  fst (wrun sp st ops') = fst (wrun sp st ops) /\
+  filter row_ok (snd (wrun sp st ops')) = snd (wrun sp st ops) /\
+  accepted_calls ops' (snd (wrun sp st ops')) = ops /\
+  Forall ok_or_rejected (snd (wrun sp st ops')) /\
+  length (snd (wrun sp st ops')) = length ops'.
+Proof. exact rej_insert_run. Qed.
+
+(* the streaming snapshot with rejected calls in between: ops' is an open call sequence (any presentation, every open master of unknown
+   size, conforming) with rejected calls inserted anywhere.  The destination holds exactly enc_levels L ++ enc_forest f; the calls
+   that returned Ok are exactly the calls of the open call sequence, with the results and delivered-byte counts they have without
+   the insertions; all other results are rejections; every call has a result *)
+Theorem C10_snapshot_with_rejected : forall sp d L P f ps ops', Forall lv_unknown L -> pconf_levels sp d [] L P ->
+  pconf_forest sp d (lv_ids [] L) f ps -> rej_insert sp (w_init []) (pops_open d L P f ps) ops' ->
+  snd (run_writer sp ops' []) = enc_levels L ++ enc_forest f /\
+  accepted_calls ops' (fst (run_writer sp ops' [])) = pops_open d L P f ps /\
+  filter row_ok (fst (run_writer sp ops' [])) = fst (run_writer sp (pops_open d L P f ps) []) /\
+  Forall ok_or_rejected (fst (run_writer sp ops' [])) /\ length (fst (run_writer sp ops' [])) = length ops'.
+Proof. exact snapshot_with_rejected. Qed.
+
+(* the held snapshot with rejected calls in between: the destination holds exactly what precedes the Start of the outermost open master
+   of known size *)
+Theorem C10_snapshot_held_with_rejected : forall sp d L1 lvk L2 P f ps ops', Forall lv_unknown L1 -> lv_size lvk <> None ->
+  pconf_levels sp d [] (L1 ++ lvk :: L2) P -> pconf_forest sp d (lv_ids [] (L1 ++ lvk :: L2)) f ps ->
+  rej_insert sp (w_init []) (pops_open d (L1 ++ lvk :: L2) P f ps) ops' ->
+  snd (run_writer sp ops' []) = enc_levels L1 ++ enc_forest (lv_f lvk) /\
+  accepted_calls ops' (fst (run_writer sp ops' [])) = pops_open d (L1 ++ lvk :: L2) P f ps /\
+  filter row_ok (fst (run_writer sp ops' [])) = fst (run_writer sp (pops_open d (L1 ++ lvk :: L2) P f ps) []) /\
+  Forall ok_or_rejected (fst (run_writer sp ops' [])) /\ length (fst (run_writer sp ops' [])) = length ops'.
+Proof. exact snapshot_held_with_rejected. Qed.
+
+(* ... and the strict reader parses the destination to exactly the ACCEPTED tags: the tags of the calls that returned Ok (Full items
+   unrolled), then the Ends of the open masters (innermost first); as items: [out_tdoc (snapshot_doc L f)] *)
+Theorem C10_snapshot_with_rejected_parses : forall c d L P f ps ops', strict c -> c_buffered c = [] -> c_emit_eof c = true ->
+  Forall lv_unknown L -> pconf_levels (c_sp c) d [] L P -> pconf_forest (c_sp c) d (lv_ids [] L) f ps ->
+  rconf_levels c L -> Forall (rconf c) f ->
+  rej_insert (c_sp c) (w_init []) (pops_open d L P f ps) ops' ->
+  p_run c (snd (run_writer (c_sp c) ops' [])) [RAll] = out_tdoc (snapshot_doc L f) /\
+  out_tags (p_run c (snd (run_writer (c_sp c) ops' [])) [RAll]) =
+    flat (wtags (accepted_calls ops' (fst (run_writer (c_sp c) ops' [])))) ++ open_ends L.
+Proof. exact snapshot_with_rejected_parses. Qed.
+
+(* prefixes: a prefix a' of a call sequence with inserted rejected calls is a prefix a of the original call sequence with inserted
+   rejected calls *)
+Theorem C10_rejected_prefix : forall sp st ops ops', rej_insert sp st ops ops' -> forall a' b', ops' = a' ++ b' ->
+  exists a b, ops = a ++ b /\ rej_insert sp st a a'.
+Proof. exact rej_insert_prefix. Qed.
+
+(* closure: every prefix a of ANY presentation [pops_forest d f ps] of a conforming document f (a whole document: all masters closed)
+   is an open call sequence [pops_open d L P f' ps'] whose levels and innermost forest conform; when the document satisfies the
+   reader-side conditions, so do L and f' *)
+Theorem C10_prefix_is_open : forall sp d c f ps a b, pconf_forest sp d [] f ps -> pops_forest d f ps = a ++ b ->
+  exists L P f' ps', a = pops_open d L P f' ps' /\ pconf_levels sp d [] L P /\ pconf_forest sp d (lv_ids [] L) f' ps' /\
+    (Forall (rconf c) f -> rconf_levels c L /\ Forall (rconf c) f').
+Proof. exact prefix_is_open. Qed.
+
+(* the same for the separate-call presentation of the second part: every prefix of [wops_forest d f] (f conforming) is
+   [wops_open d L f'] for some conforming L, f', so C10_snapshot_*_partial apply literally after every call *)
+Theorem C10_prefix_is_wops_open : forall sp d c f a b, Forall (wconf sp d []) f -> wops_forest d f = a ++ b ->
+  exists L f', a = wops_open d L f' /\ wconf_levels sp d [] L /\ Forall (wconf sp d (lv_ids [] L)) f' /\
+    (Forall (rconf c) f -> rconf_levels c L /\ Forall (rconf c) f').
+Proof. exact prefix_is_wops_open. Qed.
+
+(* the two snapshot cases are exhaustive: the open masters all have unknown size, or there is an outermost one of known size *)
+Theorem C10_levels_split : forall L, Forall lv_unknown L \/
+  exists L1 lvk L2, L = L1 ++ lvk :: L2 /\ Forall lv_unknown L1 /\ lv_size lvk <> None.
+Proof. exact levels_split. Qed.
+
+(* after EVERY call: f is a conforming document under the presentation ps, ops' is its call sequence with rejected calls inserted
+   anywhere, a' is any prefix of ops' (the calls made so far).  Then for some levels L (the open masters) and forest f', conforming:
+   the calls of a' that returned Ok are exactly the open call sequence of L, f'; every other result is a rejection and every call has
+   a result; if every open master has unknown size the destination holds exactly enc_levels L ++ enc_forest f' — every byte of every
+   accepted tag; and if lvk is the outermost open master of known size the destination holds exactly what precedes lvk's Start *)
+Theorem C10_snapshot_after_every_call : forall sp d c f ps ops' a' b', pconf_forest sp d [] f ps ->
+  rej_insert sp (w_init []) (pops_forest d f ps) ops' -> ops' = a' ++ b' ->
+  exists L P f' pf, accepted_calls a' (fst (run_writer sp a' [])) = pops_open d L P f' pf /\
+    pconf_levels sp d [] L P /\ pconf_forest sp d (lv_ids [] L) f' pf /\
+    (Forall (rconf c) f -> rconf_levels c L /\ Forall (rconf c) f') /\
+    Forall ok_or_rejected (fst (run_writer sp a' [])) /\ length (fst (run_writer sp a' [])) = length a' /\
+    (Forall lv_unknown L -> snd (run_writer sp a' []) = enc_levels L ++ enc_forest f') /\
+    (forall L1 lvk L2, L = L1 ++ lvk :: L2 -> Forall lv_unknown L1 -> lv_size lvk <> None ->
+       snd (run_writer sp a' []) = enc_levels L1 ++ enc_forest (lv_f lvk)).
+Proof. exact snapshot_after_every_call. Qed.
+
+(* ... and what the strict reader makes of the destination after every call (the document also satisfies the reader-side conditions):
+   with every open master of unknown size, exactly the accepted tags (Full items unrolled) followed by the Ends of the open masters;
+   with lvk the outermost open master of known size, the items of what precedes lvk's Start *)
+Theorem C10_snapshot_after_every_call_parses : forall c d f ps ops' a' b', strict c -> c_buffered c = [] -> c_emit_eof c = true ->
+  pconf_forest (c_sp c) d [] f ps -> Forall (rconf c) f ->
+  rej_insert (c_sp c) (w_init []) (pops_forest d f ps) ops' -> ops' = a' ++ b' ->
+  exists L P f' pf, accepted_calls a' (fst (run_writer (c_sp c) a' [])) = pops_open d L P f' pf /\
+    (Forall lv_unknown L ->
+       p_run c (snd (run_writer (c_sp c) a' [])) [RAll] = out_tdoc (snapshot_doc L f') /\
+       out_tags (p_run c (snd (run_writer (c_sp c) a' [])) [RAll]) =
+         flat (wtags (accepted_calls a' (fst (run_writer (c_sp c) a' [])))) ++ open_ends L) /\
+    (forall L1 lvk L2, L = L1 ++ lvk :: L2 -> Forall lv_unknown L1 -> lv_size lvk <> None ->
+       p_run c (snd (run_writer (c_sp c) a' [])) [RAll] = out_tdoc (snapshot_doc L1 (lv_f lvk))).
+Proof. exact snapshot_after_every_call_parses. Qed.
+
+(* the hypotheses are satisfiable with a Full item AND rejected calls in the sequence: Root (unknown size, open) { UInt 5;
+   Parent { Bin [7] } given as ONE Full item }, with two rejected calls in between: End Parent while Parent is not open, and the
+   binary element (declared under Root/Parent) directly under Root *)
+Definition C10_mixed_levels : list level := [ {| lv_f := []; lv_id := 129; lv_sl := 8; lv_size := None |} ].
+Definition C10_mixed_f : list rtree := [RLeaf 16641 (VU 5) [5] 1%nat; RNode 16643 (Some 1%nat) [RLeaf 16642 (VB [7]) [7] 1%nat]].
+Definition C10_mixed_ops : list wop :=
+  [OpWrite (TStart 129) opts_unknown; OpWrite (TEnd 16643) o_default; OpWrite (TElem 16641 (VU 5)) o_default;
+   OpWrite (TElem 16642 (VB [1])) o_default; OpWrite (TFull 16643 [TElem 16642 (VB [7])]) o_default].
+
+Example C10_ex_mixed_conf :
+  pops_open true C10_mixed_levels [] C10_mixed_f [] =
+    [OpWrite (TStart 129) opts_unknown; OpWrite (TElem 16641 (VU 5)) o_default; OpWrite (TFull 16643 [TElem 16642 (VB [7])]) o_default] /\
+  Forall lv_unknown C10_mixed_levels /\ pconf_levels C10_sp true [] C10_mixed_levels [] /\
+  pconf_forest C10_sp true (lv_ids [] C10_mixed_levels) C10_mixed_f [] /\
+  rconf_levels C10_cfg C10_mixed_levels /\ Forall (rconf C10_cfg) C10_mixed_f /\
+  rej_insert C10_sp (w_init []) (pops_open true C10_mixed_levels [] C10_mixed_f []) C10_mixed_ops.
+Proof.
+  assert (I1 : idok 129) by (exists 1%nat, 1%N; repeat split; cbn; lia).
+  assert (I2 : idok 16643) by (exists 2%nat, 259%N; repeat split; cbn; lia).
+  assert (I3 : idok 16642) by (exists 2%nat, 258%N; repeat split; cbn; lia).
+  assert (I4 : idok 16641) by (exists 2%nat, 257%N; repeat split; cbn; lia).
+  assert (F1 : field_ok true 1 1) by (split; [lia|split; [vm_compute; reflexivity|intros _; reflexivity]]).
+  assert (F4 : field_ok true 1 4) by (split; [lia|split; [vm_compute; reflexivity|intros _; reflexivity]]).
+  assert (W1 : wconf C10_sp true [129%N] (RLeaf 16641 (VU 5) [5%N] 1%nat)).
+  { split; [reflexivity|]. exists DUInt. split; [reflexivity|]. split; [discriminate|]. split; [exact I|]. split; [reflexivity|exact F1]. }
+  assert (W2 : wconf C10_sp true [129%N; 16643%N] (RLeaf 16642 (VB [7%N]) [7%N] 1%nat)).
+  { split; [reflexivity|]. exists DBinary. split; [reflexivity|]. split; [discriminate|]. split; [exact I|]. split; [reflexivity|exact F1]. }
+  split; [reflexivity|]. split; [repeat constructor|].
+  split. { cbn [pconf_levels C10_mixed_levels lv_f lv_id hd pconf_forest]. split; [exact I|]. split; [reflexivity|]. split; [reflexivity|exact I]. }
+  split.
+  { cbn [pconf_forest C10_mixed_f phd tl lv_ids C10_mixed_levels lv_id app]. split; [exact W1|]. split; [|exact I].
+    rewrite pconf_full. split; [reflexivity|]. split; [reflexivity|]. split; [intros sl E; injection E as <-; exact F4|].
+    split; [constructor; [exact W2|constructor]|constructor; [exact I|constructor]]. }
+  split. { constructor; [split; [constructor|exact I1]|constructor]. }
+  split.
+  { constructor; [split; [exact I4|]; split; [vm_compute; reflexivity|vm_compute; discriminate]|]. constructor; [|constructor].
+    apply rconf_node. split; [exact I2|]. split; [vm_compute; discriminate|].
+    constructor; [|constructor]. split; [exact I3|]. split; [repeat constructor; lia|vm_compute; discriminate]. }
+  assert (R : forall st op e, wstep C10_sp st op = (st, WErr e) -> raw_exists op -> (forall x, e <> EIo x) -> rejected C10_sp st op).
+  { intros st op e H1 H2 H3. split; [exact H2|]. exists st, e. split; assumption. }
+  apply RI_keep. apply RI_rej. { eapply R; [vm_compute; reflexivity|exact I|intros x; discriminate]. }
+  apply RI_keep. apply RI_rej. { eapply R; [vm_compute; reflexivity|exact I|intros x; discriminate]. }
+  apply RI_keep. apply RI_nil.
+Qed.
+
+(* the run: Start Root (9 bytes delivered), End Parent REJECTED (still 9), UInt 5 (13), Bin [1] under Root REJECTED (still 13), Parent as
+   one Full item (20): the 20 bytes are enc_levels ++ enc_forest; the calls that returned Ok are the three calls of the open call
+   sequence; and the bytes parse to the accepted tags — the Full item unrolled — then the End of Root, then None *)
+Example C10_ex_mixed_rejected :
+  run_writer C10_sp C10_mixed_ops [] =
+    ([(WOk, 9%nat); (WErr (EClose 16643 (Some 129)), 9%nat); (WOk, 13%nat); (WErr (EUnexpectedTag 16642 [129]), 13%nat); (WOk, 20%nat)],
+     [129; 1; 255; 255; 255; 255; 255; 255; 255; 65; 1; 129; 5; 65; 3; 132; 65; 2; 129; 7]%N) /\
+  snd (run_writer C10_sp C10_mixed_ops []) = enc_levels C10_mixed_levels ++ enc_forest C10_mixed_f /\
+  accepted_calls C10_mixed_ops (fst (run_writer C10_sp C10_mixed_ops [])) = pops_open true C10_mixed_levels [] C10_mixed_f [] /\
+  p_run C10_cfg (snd (run_writer C10_sp C10_mixed_ops [])) [RAll] =
+    [OItem (TStart 129) 0; OItem (TElem 16641 (VU 5)) 9; OItem (TStart 16643) 13; OItem (TElem 16642 (VB [7%N])) 16;
+     OItem (TEnd 16643) 13; OItem (TEnd 129) 0; ONone].
+Proof. vm_compute. repeat split; reflexivity. Qed.
